@@ -4,6 +4,7 @@ import (
 	"container/heap"
 	"errors"
 	"fmt"
+	"runtime/debug"
 	"sort"
 	"strings"
 	"sync"
@@ -52,6 +53,11 @@ type P2P struct {
 	Fair     bool // when set no faults are injected any more (fair suffix)
 	// NewEnvelope creates an empty envelope for endpoints without a protocol instance.
 	NewEnvelope func() interface{}
+	// OnPanic, if set, catches a panic of a protocol handler (in the real connection manager
+	// it would end the process) and reports it instead.
+	OnPanic func(node, typ string, v interface{}, stack []byte)
+	// OnHandled sees the result of every handled envelope.
+	OnHandled func(node, typ string, err error)
 }
 
 // NewP2P builds an empty network.
@@ -367,7 +373,17 @@ func (p *P2P) deliver(it *item) {
 	if err := proto.Unmarshal(it.wire, env.(proto.Message)); err != nil {
 		return
 	}
-	_ = to.Prot.Handle(c.back, env)
+	if p.OnPanic != nil {
+		defer func() {
+			if v := recover(); v != nil {
+				p.OnPanic(to.Name, it.typ, v, debug.Stack())
+			}
+		}()
+	}
+	err := to.Prot.Handle(c.back, env)
+	if p.OnHandled != nil {
+		p.OnHandled(to.Name, it.typ, err)
+	}
 }
 
 func (e *Endpoint) newEnvelope() interface{} {
